@@ -61,7 +61,8 @@ CondStep == /\ Running /\ Ins.g = "COND"
             /\ v' = IF CondHolds(Ins) THEN ApplyGate(v, GateM(Ins.op), Ins.op.w, Case.n) ELSE v
             /\ pos' = pos + 1 /\ UNCHANGED <<tid, o, psi>>
 
-Allowed(b) == Len(Case.path) = 0 \/ Case.path[Len(o) + 1] = b
+\* (IF, not \/: TLC splits a disjunction inside an action into sub-actions and evaluates both)
+Allowed(b) == IF Len(Case.path) = 0 THEN TRUE ELSE Case.path[Len(o) + 1] = b
 Measure(b) == /\ Running /\ Ins.g = "MEASURE" /\ Allowed(b)
               /\ LET pr == Project(v, Ins.w[1], b, Case.n) IN
                  /\ ~IsZeroV(pr)
